@@ -210,7 +210,7 @@ func (p *Path) visitInstr(fr *frame, instr ssa.Instruction) (ret bool) {
 			p.rtPanic(fr, instr, "invalid memory address or nil pointer dereference")
 		}
 		p.memAccess(fr, instr, addr, true)
-		*addr = copyVal(fr.get(instr.Val))
+		storeInPlace(addr, fr.get(instr.Val))
 
 	case *ssa.If:
 		c := fr.get(instr.Cond).(*Term)
@@ -550,4 +550,28 @@ func (p *Path) panicText(v Value) string {
 		}
 	}
 	return "panic"
+}
+
+// storeInPlace assigns v to *addr. Structs and arrays are copied element-wise
+// INTO the existing cells, because interior pointers (&x.f, &a[i]) taken before
+// the store must keep designating the same variable (go/ssa initialises
+// "*p = T{...}" as: take field addresses, store the zero value, store the fields).
+func storeInPlace(addr Ptr, v Value) {
+	switch nv := v.(type) {
+	case Struct:
+		if old, ok := (*addr).(Struct); ok && len(old) == len(nv) {
+			for i := range nv {
+				storeInPlace(Ptr(&old[i]), nv[i])
+			}
+			return
+		}
+	case Array:
+		if old, ok := (*addr).(Array); ok && len(old) == len(nv) {
+			for i := range nv {
+				storeInPlace(Ptr(&old[i]), nv[i])
+			}
+			return
+		}
+	}
+	*addr = copyVal(v)
 }
